@@ -96,6 +96,31 @@ Theorem C07_registration_leaf :
 Proof. exact reg_leaf. Qed.
 Print Assumptions C07_registration_leaf.
 
+(* Outside policy bodies, first reference, children not overlapping: every concrete child of a
+   type whose children carry own policies gets its own rewrite key registered (so the union
+   rewrite of the parent refers to registered, separately filtered, child sets).  The
+   overlapping case and the inside-a-policy-body case are false: see Refuted.v. *)
+Theorem C07_registration_children :
+  forall o n m k,
+    o_apply_query_rewrites o = true ->
+    rw_get m (t_id n, false) = None ->
+    existsb (has_own_policies o (t_id n)) (t_kids n) = true ->
+    has_dup (map t_id (all_descs (t_kids n))) = false ->
+    In k (t_kids n) -> t_material k = true ->
+    rw_get (fst (new_set o [] n false false m)) (t_id k, false) <> None.
+Proof. exact reg_children. Qed.
+Print Assumptions C07_registration_children.
+
+(* computing a rewrite never removes a key that is already registered *)
+Theorem C07_registration_monotone :
+  forall o sup n m k,
+    rw_get m k <> None ->
+    rw_get (full o sup n m) k <> None /\ rw_get (visit o sup n m) k <> None.
+Proof.
+  intros o sup n m k H. destruct (full_visit_mono o sup n) as [A B]. split; [now apply A|now apply B].
+Qed.
+Print Assumptions C07_registration_monotone.
+
 (* ---------------- non-vacuity ---------------- *)
 (* policy of table 2: allow a1, deny (a7 and a2); table 3 inherits it; table 1 is free *)
 Definition ex_pols : list policy := [(true, CAtom 1); (false, CAnd (CAtom 7) (CAtom 2))].
